@@ -905,8 +905,8 @@ def cells(ctx):
     import itertools
     from traits.api import Dict as _D, Instance as _I, List as _L, Set as _S
 
-    def bad(kind, msg, **case):
-        ctx.violation("C04:cell:%s" % kind, msg, config="cells",
+    def bad(what, msg, **case):
+        ctx.violation("C04:cell:%s" % what, msg, config="cells",
                       state=[], steps=[], **case)
 
     # (a) a container nested two deep whose innermost class is given by
